@@ -1760,15 +1760,45 @@ impl Transaction {
                 if next_row_id.is_some() {
                     let new_version = current_manifest.map(|m| m.version + 1).unwrap_or(1);
 
-                    // Build a map of original fragment ID -> original fragment for lookup
-                    let original_frags_map: std::collections::HashMap<u64, &Fragment> =
-                        existing_fragments.iter().map(|f| (f.id, f)).collect();
+                    // Map every stable row id of the fragments this update touched to the
+                    // version that created the row. (Row ids are not row addresses: the
+                    // creating fragment and offset have to be found through the row id
+                    // sequences.)
+                    let mut created_at_by_row_id: std::collections::HashMap<u64, u64> =
+                        std::collections::HashMap::new();
+                    for orig_frag in existing_fragments.iter().filter(|f| {
+                        removed_fragment_ids.contains(&f.id)
+                            || updated_fragments.iter().any(|uf| uf.id == f.id)
+                    }) {
+                        let Some(lance_table::format::RowIdMeta::Inline(data)) =
+                            &orig_frag.row_id_meta
+                        else {
+                            continue;
+                        };
+                        let Ok(orig_row_ids) = lance_table::rowids::read_row_ids(data) else {
+                            continue;
+                        };
+                        let created_versions: Option<Vec<u64>> = orig_frag
+                            .created_at_version_meta
+                            .as_ref()
+                            .and_then(|meta| meta.load_sequence().ok())
+                            .map(|seq| seq.versions().collect());
+                        for (offset, row_id) in orig_row_ids.iter().enumerate() {
+                            let created_version = created_versions
+                                .as_ref()
+                                .and_then(|versions| versions.get(offset).copied())
+                                .unwrap_or(1);
+                            created_at_by_row_id.insert(row_id, created_version);
+                        }
+                    }
 
                     for fragment in new_fragments.iter_mut() {
                         // For update operations with RewriteRows mode:
                         // - Rows are deleted from old fragments and rewritten to new fragments
                         // - last_updated_at should be the current version (when update happened)
-                        // - created_at should be preserved from the original fragment
+                        // - created_at should be preserved from the original fragment; rows
+                        //   that did not exist before (inserted by a merge_insert) are created
+                        //   by this version
 
                         // Read row IDs from this fragment to find original fragments
                         let row_ids = if let Some(row_id_meta) = &fragment.row_id_meta {
@@ -1783,40 +1813,16 @@ impl Transaction {
                         };
 
                         if let Some(row_ids) = row_ids {
-                            // Extract created_at version for each row from original fragments
                             let physical_rows = fragment.physical_rows.unwrap_or(0);
                             let mut created_at_versions = Vec::with_capacity(physical_rows);
 
                             for row_id in row_ids.iter() {
-                                // Row ID format: upper 32 bits = fragment ID, lower 32 bits = row offset
-                                let orig_frag_id = row_id >> 32;
-                                let row_offset = (row_id & 0xFFFFFFFF) as usize;
-
-                                // Look up the original fragment
-                                if let Some(orig_frag) = original_frags_map.get(&orig_frag_id) {
-                                    // Get created_at version from original fragment's metadata
-                                    let created_version = if let Some(created_meta) =
-                                        &orig_frag.created_at_version_meta
-                                    {
-                                        // Load and index into the version sequence
-                                        match created_meta.load_sequence() {
-                                            Ok(seq) => {
-                                                let versions: Vec<u64> = seq.versions().collect();
-                                                versions.get(row_offset).copied().unwrap_or(1)
-                                            }
-                                            Err(_e) => {
-                                                1 // Default to version 1 on error
-                                            }
-                                        }
-                                    } else {
-                                        // No metadata on original fragment, default to version 1
-                                        1
-                                    };
-                                    created_at_versions.push(created_version);
-                                } else {
-                                    // Original fragment not found, default to version 1
-                                    created_at_versions.push(1);
-                                }
+                                created_at_versions.push(
+                                    created_at_by_row_id
+                                        .get(&row_id)
+                                        .copied()
+                                        .unwrap_or(new_version),
+                                );
                             }
 
                             // Build version metadata from the collected versions
